@@ -181,16 +181,27 @@ impl Uint128 {
             .ok_or_else(|| DivideByZeroError::new(self))
     }
 
+    // wrapping / saturating forms: exact semantics on symbolic operands too (the overflow test
+    // is a path decision; the wrapped value is the remainder modulo 2^128)
     pub fn wrapping_add(self, other: Self) -> Self {
-        Self::new(self.0.as_conc().wrapping_add(other.0.as_conc()))
+        match self.0.checked_add(other.0) {
+            Some(v) => Self(v),
+            None => Self(symrt::wrap_u128(symrt::SInt::u(self.0).add(symrt::SInt::u(other.0)))),
+        }
     }
 
     pub fn wrapping_sub(self, other: Self) -> Self {
-        Self::new(self.0.as_conc().wrapping_sub(other.0.as_conc()))
+        match self.0.checked_sub(other.0) {
+            Some(v) => Self(v),
+            None => Self(symrt::wrap_u128(symrt::SInt::u(self.0).sub(symrt::SInt::u(other.0)))),
+        }
     }
 
     pub fn wrapping_mul(self, other: Self) -> Self {
-        Self::new(self.0.as_conc().wrapping_mul(other.0.as_conc()))
+        match self.0.checked_mul(other.0) {
+            Some(v) => Self(v),
+            None => Self(symrt::wrap_u128(symrt::SInt::u(self.0).mul(symrt::SInt::u(other.0)))),
+        }
     }
 
     pub fn wrapping_pow(self, other: u32) -> Self {
@@ -198,15 +209,24 @@ impl Uint128 {
     }
 
     pub fn saturating_add(self, other: Self) -> Self {
-        Self::new(self.0.as_conc().saturating_add(other.0.as_conc()))
+        match self.0.checked_add(other.0) {
+            Some(v) => Self(v),
+            None => Self::MAX,
+        }
     }
 
     pub fn saturating_sub(self, other: Self) -> Self {
-        Self::new(self.0.as_conc().saturating_sub(other.0.as_conc()))
+        match self.0.checked_sub(other.0) {
+            Some(v) => Self(v),
+            None => Self::zero(),
+        }
     }
 
     pub fn saturating_mul(self, other: Self) -> Self {
-        Self::new(self.0.as_conc().saturating_mul(other.0.as_conc()))
+        match self.0.checked_mul(other.0) {
+            Some(v) => Self(v),
+            None => Self::MAX,
+        }
     }
 
     pub fn saturating_pow(self, exp: u32) -> Self {
